@@ -1,6 +1,6 @@
 (* C03 — the client receives the backend's response unaltered.  Statements only. *)
 From Coq Require Import String List Bool ZArith Lia.
-From IP Require Import Gen.SrcFacts_Agent Gen.SrcFacts_Server Lib.Header Server.HopFilter Agent.RespPath Proofs.RespPathProofs.
+From IP Require Import Gen.SrcFacts_Agent Gen.SrcFacts_Server Lib.Header Server.HopFilter Agent.RespPath Proofs.RespPathProofs Proofs.TrailerProofs.
 Import ListNotations.
 Open Scope string_scope.
 Open Scope list_scope.
@@ -36,18 +36,20 @@ Theorem C03_trailer_announcement : forall names, Forall (fun n => plain_name n =
 Proof. exact split_join. Qed.
 Print Assumptions C03_trailer_announcement.
 
-(* The full statement about trailers (every trailer field, declared or not, of any
-   cardinality, arrives as a trailer with its values in order).  It is evaluated
-   by the correspondence run on every generated response and proved here only for
-   the announcement step above: PARTIAL. *)
-Definition C03_trailers_statement : Prop := forall b H T,
+(* Trailers: for every backend response, every trailer field - announced in the Trailer
+   header or not, any number of names, any number of values per name, in either of the two
+   forms ReverseProxy uses to hand them over (plain when all were announced, with the
+   "Trailer:" prefix otherwise) - reaches the client as a trailer with exactly its values in
+   order, and nothing else appears among the trailers.  Well-formedness: trailer names are
+   plain tokens that are not hop-by-hop, do not also occur as header fields and do not start
+   with "Trailer:"; header field names contain no colon (so none starts with "Trailer:"). *)
+Theorem C03_trailers : forall b H T,
   Forall in_1xx (br_interim b) -> ~ in_1xx (br_status b) ->
-  Forall (fun t => plain_name (canon (fst t)) = true /\ key_in hopHeaders (canon (fst t)) = false /\
-                   key_in serverHopByHop (lower (canon (fst t))) = false /\
-                   hvalues (canon (fst t)) (of_wire (br_fields b)) = [] /\ has_prefix trailer_prefix (canon (fst t)) = false)
-         (br_declared b ++ br_undeclared b) ->
+  Forall (wf_trailer hopHeaders serverHopByHop b) (all_tr b) -> Forall wf_field (br_fields b) ->
   client_view_now b = Some (br_status b, H, T) ->
   forall k, hvalues k T = map snd (filter (fun t => canon (fst t) =? k) (br_declared b ++ br_undeclared b)).
+Proof. intros b H T. exact (client_trailers hopHeaders serverHopByHop (proj1 C03_tables) b H T). Qed.
+Print Assumptions C03_trailers.
 
 (* non-vacuity: 103 + 103, repeated Set-Cookie, three announced trailers (one name twice), a hop-by-hop field *)
 Example C03_example :
